@@ -1,7 +1,7 @@
 """C15: extended attributes read back exactly as set -- explicit-state BFS over set/replace/remove histories on the real libext2fs
 (engines/xattrx.c), map reference model checked after every operation; every distinct final image is given to e2fsck -fn and to the
 independent checker (entry order, hashes, reference counts, ea_inode back references, block/inode accounting)."""
-import os, json, subprocess, re
+import os, json, subprocess, re, time
 from vlib.common import *
 from vlib import fsweep
 from xck.check import check as xcheck
@@ -89,7 +89,10 @@ def main(tier, only=None):
         run([tool('debugfs'), '-w', '-R', 'write /dev/null P', p]); run([tool('debugfs'), '-w', '-R', 'mkdir D', p]); run([tool('debugfs'), '-w', '-R', 'write %s I' % small, p])
         BASES[c] = p
     total_tr = total_states = 0; per = {}
+    t_end = ck.t0 + (420 if quick else 3000); nleft = len(BASES)
     for name in BASES:
+        # every configuration gets an equal share of the remaining time
+        ck.deadline = min(t_end, time.time() + max(20.0, (t_end - time.time()) / max(1, nleft))); nleft -= 1
         depth = 2 if quick else 3
         seen = {}; level = ['']; trans = 0; dmax = 0
         for d in range(1, depth + 1):
@@ -97,7 +100,12 @@ def main(tier, only=None):
             ops = ops_for(name, 'all' if d == 1 or (d == 2 and not quick) else 'small')
             hists = [(h + ' ' + o).strip() for h in level for o in ops]
             chunks = [hists[i:i + 300] for i in range(0, len(hists), 300)]
-            res = pmap(run_batch, [(name, c) for c in chunks], chunksize=1)
+            # the level is processed in slices so that the global deadline can end it (the evidence then says exhaustive: false and which depth was completed)
+            res = []; cut = False
+            for i0 in range(0, len(chunks), 128):
+                if ck.expired(): cut = True; break
+                res += pmap(run_batch, [(name, c) for c in chunks[i0:i0 + 128]], chunksize=1)
+            if cut: ck.add(exhaustive=False)
             nxt = []
             for batch in res:
                 for r in batch:
@@ -110,9 +118,11 @@ def main(tier, only=None):
                         if not r['degraded']: nxt.append(r['h'])
                         dmax = d
             level = nxt
-            if not level: break
+            if cut: dmax = d - 1
+            if not level or cut: break
         st = sorted(seen.values())
         if quick: st = st[::2]
+        if len(st) > 20000: st = st[::(len(st) + 19999) // 20000]          # bounded number of full consistency checks per configuration (deterministic stride)
         cres = pmap(check_state, [(name, h) for h in st], chunksize=8)
         for cfg, h, msg in cres:
             cls = None
